@@ -658,6 +658,7 @@ def install():
                 # a placement whose time has passed is being retried every microsecond
                 start = max(pl.placement_time.time, sim_time.time)
                 call["scheduled"][tid] = {"task": r["uname"], "pool": pl.worker_pool_id, "worker": pl.worker_id,
+                                          "planned": pl.placement_time.time,
                                           "start": start, "end": start + pl.execution_strategy.runtime.time,
                                           "demand": _demand(pl.execution_strategy)}
         call["digest_cluster"] = policymon.cluster_digest(worker_pools)
@@ -691,7 +692,8 @@ def install():
             ctx.violate("C10", "side_effect_tasks", f"{call['policy']} at {call['t']} changed task state")
         policymon.check_decision(call, pls, lambda kind, detail: ctx.violate(
             "C10", kind, f"{call['policy']} at t={call['t']}: {detail}",
-            greedy=call["policy"] in ("EDFScheduler", "FIFOScheduler", "LSFScheduler")))
+            greedy=call["policy"] in ("EDFScheduler", "FIFOScheduler", "LSFScheduler"), policy=call["policy"],
+            **_joint_facts(ctx, call, kind)))
         if call.get("input_infeasible"):
             ctx.count("schedule_calls_input_infeasible")
         for hook in ctx.opts.get("decision_hooks", ()):
@@ -1240,6 +1242,36 @@ def _scan_states(ctx):
                 ctx.violate("C06", "illegal_transition", f"{r['uname']}: {r['state']} -> {cur} via direct write")
             r["state"] = cur
             r["history"].append(cur)
+
+
+def _joint_facts(ctx, call, kind):
+    """mechanism facts for a joint-capacity report: is a colliding pair an ancestor / descendant pair of one task graph
+    (description graph), and is a pending scheduled task in the way one whose planned start has passed"""
+    if not kind.startswith("joint_capacity"):
+        return {}
+    jf = call.get("joint_facts") or {}
+    names = jf.get("colliding", [])
+    dep = False
+    by_graph = {}
+    for u in names:
+        n, _, g = u.partition("@")
+        by_graph.setdefault(g, []).append(n)
+    for g, ns in by_graph.items():
+        gd = ctx.graph_desc.get(g.split("@")[0])
+        if gd is None or len(ns) < 2:
+            continue
+
+        def desc(a, seen=None):
+            seen = set() if seen is None else seen
+            for c in gd["children"].get(a, []):
+                if c not in seen:
+                    seen.add(c)
+                    desc(c, seen)
+            return seen
+        for a in ns:
+            if desc(a) & (set(ns) - {a}):
+                dep = True
+    return {"dependent_pair_collides": dep, "deferred_pending": bool(jf.get("deferred_pending"))}
 
 
 def _loaded_profile_check(ctx, sim, event):
